@@ -168,6 +168,11 @@ instance : Inhabited Rng64 := ⟨⟨⟨#[], 0⟩, 0⟩⟩
 def Rng64.create (seed : UInt64) : Rng64 := { st := init P64 seed, seed := seed }
 def Rng64.next (r : Rng64) : UInt64 × Rng64 := let (v, s) := MTP.next P64 r.st; (v, { r with st := s })
 
+/-- test hook (see `Rng.pokeRaw`) for the 64-bit generator -/
+def Rng64.pokeRaw (r : Rng64) (w : UInt64) : Rng64 :=
+  let r1 := if r.st.mti ≥ 312 then (r.next).2 else r
+  { r1 with st := { r1.st with mt := r1.st.mt.setIfInBounds r1.st.mti w } }
+
 def rollWord64 (n : Nat) (x : Nat) : Option Nat :=
   let factor := (2^64 - 1) / n
   let u := x / factor
